@@ -21,18 +21,18 @@ go1.26 test -count=1 -vet=off -timeout 25m $pkgs 2>&1 | tail -5
 place=$(python3 - <<PY
 import json,os
 m=json.load(open('$src/meta.json'))
-print(m.get('demo_cmd',''))
+import re; print(re.sub(r'\\s+\\((with|from|after) .*$','',m.get('demo_cmd','')))
 PY
 )
 for f in $(find $src/demo -type f \( -name "*.go" -o -name "*.sqlite" -o -name "*.json" -o -name "*.sh" \)); do
   # placement: same relative dir as in the seed worktree
   rel=$(cd /tmp/seed-$id 2>/dev/null && git status --porcelain | awk '{print $2}' | grep "$(basename $f)\$" | head -1)
   [ -z "$rel" ] && rel=$(python3 -c "
-import json,re
-m=json.load(open('$src/meta.json'))
-s=json.dumps(m)
+import json,re,glob
+s=open('$src/meta.json').read()
+for t in glob.glob('$src/demo/*.txt')+glob.glob('$src/*.txt')+glob.glob('$src/*.md'): s+=open(t).read()
 b='$(basename $f)'
-mm=re.search(r'->\s*([\w/.-]*'+re.escape(b)+')', s)
+mm=re.search(r'(?:->|placed at|place at|to)\s*\`?([\w/.-]*/'+re.escape(b)+')', s)
 print(mm.group(1) if mm else '')")
   [ -z "$rel" ] && { echo "FAIL: cannot place demo $f"; exit 1; }
   mkdir -p $(dirname $rel); cp $f $rel; echo "demo placed: $rel"
